@@ -31,7 +31,7 @@ func init() {
 		Run:            c12Run,
 		Floor:          func(tier string) int { return 10000 },
 		MemCapMiB:      6144,
-		Rule:           "TensorProtos of the 11 supported element types x raw / typed encoding x ranks 0..4 (extents 0..4) x random bit patterns and extremes (NaN payloads, negative values), decoded (a) by onnx.TensorFromProto, (b) as an initializer of a node-less model whose graph output is the initializer (NewModelFromBytes + Run), (c) as the value of a Constant node; mutations: payload length expected + {-element, -1 byte, +1 byte, +element}, empty payload, typed field with one element too few/many, negative, huge and overflowing dims, every other data_type code with each typed field (or raw) populated. Well-formed => bit-exact shape/type/values (MUST_EQUAL); everything else => error (MUST_ERROR), never a panic or a process-fatal allocation (workers run under an address-space cap). Non-trivial = rank >= 1 payload with a non-zero bit pattern, or a mutated payload; distinct = (type, encoding, dims, mutation, payload hash).",
+		Rule:           "(also: the initializer between two well-formed ones; a default declared as graph input under another shape keeps its dims; a tensor message edited in place before a second NewModel on the same ModelProto object) TensorProtos of the 11 supported element types x raw / typed encoding x ranks 0..4 (extents 0..4) x random bit patterns and extremes (NaN payloads, negative values), decoded (a) by onnx.TensorFromProto, (b) as an initializer of a node-less model whose graph output is the initializer (NewModelFromBytes + Run), (c) as the value of a Constant node; mutations: payload length expected + {-element, -1 byte, +1 byte, +element}, empty payload, typed field with one element too few/many, negative, huge and overflowing dims, every other data_type code with each typed field (or raw) populated. Well-formed => bit-exact shape/type/values (MUST_EQUAL); everything else => error (MUST_ERROR), never a panic or a process-fatal allocation (workers run under an address-space cap). Non-trivial = rank >= 1 payload with a non-zero bit pattern, or a mutated payload; distinct = (type, encoding, dims, mutation, payload hash).",
 		RaceInThorough: true,
 		Technique:      "runtime monitoring: differential decoding against an independent reference decoder (encoding/binary over the declared type table), exact comparison; child-process isolation with memory cap for hostile dims",
 		Assumptions:    []string{"bool payloads restricted to 0/1", "typed int32_data values are within the range of the narrow type they carry (ONNX requirement)"},
